@@ -139,6 +139,7 @@ def check(ctx):
     tie(ctx)
     oracle(ctx)
     options_probe(ctx)
+    amplitude_probe(ctx)
 
 
 # ---------------------------------------------------------------- oracle
@@ -329,6 +330,34 @@ def oracle(ctx):
             gu = raw[pos]
             if gu is not None and float(gu.detach().abs().max()) != 0.0:
                 ctx.fail("oracle", "ivpgrad:unused-parameter-nonzero", info, gu.tolist(), "None or zero")
+
+
+def amplitude_probe(ctx):
+    """sensitivities of states of very different magnitude with (atol, rtol) given by the caller: the accuracy of the gradients
+    follows atol + rtol |y| in the forward AND in the backward integration (round-3 seeds C08/8, C08/9: tolerances dropped for
+    rk23 / swapped in the step acceptance - invisible when |y| ~ 1 and the tolerances are close to the defaults)"""
+    from xitorch.integrate import solve_ivp
+    ts = torch.tensor([0.0, 0.7, 1.5, 3.0], dtype=DT)
+    for meth in ("rk45", "rk23"):
+        for amp, atol, rtol in ((1e-6, 1e-16, 1e-9), (1e3, 1e-7, 1e-9), (1.0, 1e-10, 1e-9)):
+            a = torch.tensor([0.8, 1.7], dtype=DT, requires_grad=True)
+            y0 = (amp * torch.tensor([1.0, -0.6], dtype=DT)).requires_grad_()
+            w = torch.tensor([[0.0, 0.0], [1.0, -2.0], [0.5, 0.3], [2.0, 1.0]], dtype=DT)
+            with warnings.catch_warnings():
+                warnings.simplefilter("ignore")
+                yt = solve_ivp(lambda t, y, a: -a * y * (1 + 0.5 * torch.sin(t)), ts, y0, params=(a,), method=meth, atol=atol, rtol=rtol,
+                               bck_options=dict(method=meth, atol=atol, rtol=rtol))
+            ga, gy = torch.autograd.grad((yt * w).sum(), (a, y0))
+            ar, yr = a.detach().clone().requires_grad_(), y0.detach().clone().requires_grad_()
+            ex = yr * torch.exp(-ar * (ts + 0.5 * (1 - torch.cos(ts))).unsqueeze(-1))
+            ra, ry = torch.autograd.grad((ex * w).sum(), (ar, yr))
+            ctx.count(("ivpgrad-amplitude", meth, amp), nontrivial=True)
+            for nm, x_, y_ in (("value", yt.detach(), ex.detach()), ("a", ga, ra), ("y0", gy, ry)):
+                err = float((x_ - y_).abs().max() / y_.abs().max())
+                if not err <= 2e-5:
+                    ctx.fail("oracle", "ivpgrad:%s:accuracy-vs-amplitude:%s" % (meth, nm), {"amplitude": amp, "atol": atol, "rtol": rtol, "what": nm},
+                             err, "relative error <= 2e-5 with the caller's tolerances")
+                    break
 
 
 def options_probe(ctx):
